@@ -77,6 +77,8 @@ def run_once(scn, choices=None, expect=None, keep_trace=False):
         viol = []
         if reason == "horizon":
             viol.append(("harness:horizon", f"step horizon {scn.horizon} exceeded"))
+        for name, op, who in W.blocked[:1]:
+            viol.append((f"blocking-call:{op}", f"{who} called {op} on {name}, which was left in blocking mode, when the call could not complete at once ({len(W.blocked)} such calls)"))
         if S.fatal:
             viol.append(("harness:fatal", S.fatal))
         viol += list(scn.oracle(ctx, S, W, reason))
